@@ -95,6 +95,10 @@ type progOpts struct {
 	jsSafe     bool // stay inside the subset both backends define (C04)
 	taint      bool
 	directives bool
+	// C07
+	allParams   bool                // data sets supply optional params too
+	totalCalls  bool                // every call passes every callee param (optional ones too); no data="$expr"
+	onTemplates func([]*gtemplate) // called with the generated templates (params with kinds)
 }
 
 type progGen struct {
@@ -662,7 +666,7 @@ func (g *progGen) call(env genv, d int) string {
 				}
 			}
 		}
-	case recOK && g.r.Chance(60):
+	case recOK && !g.o.totalCalls && g.r.Chance(60):
 		g.feat("call-data-expr")
 		rv := env.ofKind(kRec)
 		sb.WriteString(" data=\"" + g.use(rv[g.r.Intn(len(rv))]) + "\"")
@@ -670,11 +674,23 @@ func (g *progGen) call(env genv, d int) string {
 	}
 	var params []string
 	for _, p := range callee.params {
-		if passAll && !g.r.Chance(25) {
-			continue
-		}
-		if p.optional && g.r.Chance(50) {
-			continue
+		if g.o.totalCalls {
+			covered := false
+			for _, q := range caller.params {
+				if q.name == p.name && q.k == p.k {
+					covered = true
+				}
+			}
+			if passAll && covered && !g.r.Chance(25) {
+				continue
+			}
+		} else {
+			if passAll && !g.r.Chance(25) {
+				continue
+			}
+			if p.optional && g.r.Chance(50) {
+				continue
+			}
 		}
 		k := p.k
 		if callee.rec && p.name == "n" {
@@ -802,6 +818,9 @@ func genBundle(r *hx.Rand, o progOpts) (files []srcFile, entry string, dataSets 
 		}
 	}
 	entry = g.tmpls[0].full()
+	if o.onTemplates != nil {
+		o.onTemplates(g.tmpls)
+	}
 	for k := 0; k < 2; k++ {
 		dataSets = append(dataSets, genData(r, g.tmpls[0].params, o))
 	}
@@ -851,7 +870,7 @@ func genValue(r *hx.Rand, k kind, o progOpts) data.Value {
 func genData(r *hx.Rand, params []gparam, o progOpts) data.Map {
 	m := data.Map{}
 	for _, p := range params {
-		if p.optional && r.Chance(40) {
+		if p.optional && !o.allParams && r.Chance(40) {
 			continue
 		}
 		m[p.name] = genValue(r, p.k, o)
